@@ -263,7 +263,7 @@ static void synth_lz_member(ref::SynthRng &rng, int version, uint8_t dict_code, 
 
 // Reference .lz decoder (lzip manual, "File format"): returns 0 valid, 1 invalid, 2 unsupported version
 } // namespace
-LzResult ref_lzip(const std::vector<uint8_t> &f, bool concatenated)
+LzResult ref_lzip(const std::vector<uint8_t> &f, bool concatenated, bool ignore_crc)
 {
 	LzResult r;
 	size_t pos = 0;
@@ -302,7 +302,8 @@ LzResult ref_lzip(const std::vector<uint8_t> &f, bool concatenated)
 		uint64_t ds = 0, ms = 0;
 		for (int i = 0; i < 8; ++i) ds |= (uint64_t)f[tp + 4 + (size_t)i] << (8 * i);
 		if (version >= 1) for (int i = 0; i < 8; ++i) ms |= (uint64_t)f[tp + 12 + (size_t)i] << (8 * i);
-		if (crc != ref::crc32(plain.data(), plain.size())) { r.verdict = 1; r.why = "CRC32 mismatch"; return r; }
+		// (LZMA_IGNORE_CHECK skips the integrity check - the CRC32 - only; the size fields are format structure)
+		if (!ignore_crc && crc != ref::crc32(plain.data(), plain.size())) { r.verdict = 1; r.why = "CRC32 mismatch"; return r; }
 		if (ds != plain.size()) { r.verdict = 1; r.why = "data size mismatch"; return r; }
 		if (version >= 1 && ms != tp + tsz - pos) { r.verdict = 1; r.why = "member size mismatch"; return r; }
 		pos = tp + tsz;
@@ -332,7 +333,11 @@ static void c16_gen(Rng &rng, Plan &plan, bool thorough)
 	if (rng.chance(300)) xf |= LZMA_TELL_ANY_CHECK;
 	if (rng.chance(200)) xf |= LZMA_TELL_NO_CHECK;
 	if (rng.chance(200)) xf |= LZMA_TELL_UNSUPPORTED_CHECK;
-	if (plan.ops.empty() && !plan.hasp("synth_illegal") && rng.chance(150)) xf |= LZMA_IGNORE_CHECK;   // only on undamaged artefacts
+	int fk = (int)plan.p("fmt");
+	// (the reference .lz parser knows the flag; for the other formats only on undamaged artefacts)
+	if ((plan.ops.empty() && !plan.hasp("synth_illegal") && rng.chance(150)) || (fk >= 4 && fk <= 6 && rng.chance(300))) xf |= LZMA_IGNORE_CHECK;
+	// aim a fault at the member trailer (CRC32, data size, member size) now and then
+	if (fk >= 4 && fk <= 6 && rng.chance(250)) plan.setp("lz_trailer_fault", 1 + (int64_t)rng.below(1 << 16));
 	plan.setp("extra_flags", xf);
 }
 
@@ -442,7 +447,13 @@ static void c16_exec(const Plan &plan, Verdict &v)
 			else { file.push_back(7); file.push_back(0x0C); }   // a fifth byte making it a header with an unsupported version
 		}
 		for (auto &op : plan.ops) if (op.name == "sfault") apply_one_fault(op, file, &v);
-		LzResult want = ref_lzip(file, concat);
+		if (int64_t tf = plan.p("lz_trailer_fault", 0)) {
+			// one bit in the trailer of one member (20 bytes in version 1, 12 in version 0)
+			size_t mi = (size_t)tf % ends.size(), e = ends[mi];
+			size_t off = 1 + (size_t)(tf / 7) % 20;
+			if (e >= off && e - off < file.size()) { file[e - off] ^= (uint8_t)(1u << (tf % 8)); faulted = true; v.count("fault.lz_trailer_bit"); }
+		}
+		LzResult want = ref_lzip(file, concat, (flags & LZMA_IGNORE_CHECK) != 0);
 		std::string ctx = fmt(" [.lz %d members, %zu bytes (members end %zu), tail kind %d%s, flags 0x%x; reference: %s %s consumed %zu]", members, file.size(), members_end, tail, faulted ? ", faulted" : "", flags,
 			want.verdict == 0 ? "valid" : want.verdict == 2 ? "unsupported" : "invalid:", want.why.c_str(), want.consumed);
 		if (!faulted && tail == 0 && (want.verdict != 0 || (concat && want.out != plain))) { v.fail("harness", "harness/synth", "reference rejects its own .lz" + ctx); return; }
